@@ -19,6 +19,26 @@ def LrefClosedC (cs : List Core) : Prop :=
 
 def Ctx.LrefClosed (s : Ctx) : Prop := LrefClosedC (s.mods.map Mod.core)
 
+/-- executable form, for concrete contexts -/
+def lrefClosedB (cs : List Core) : Bool :=
+  cs.all fun x => !x.implemented || x.src.lrefs.all fun tn =>
+    match x.impRes.find? (fun k => k.1 == tn) with
+    | none => true
+    | some tk => match findCore cs tk with
+      | none => true
+      | some t => t.implemented
+
+theorem lrefClosed_of_B {cs : List Core} (h : lrefClosedB cs = true) : LrefClosedC cs := by
+  intro x hx hi tn htn tk htk t ht
+  unfold lrefClosedB at h
+  rw [List.all_eq_true] at h
+  have h1 := h x hx
+  simp only [hi, Bool.not_true, Bool.false_or, List.all_eq_true] at h1
+  have h2 := h1 tn htn
+  rw [htk] at h2
+  simp only [ht] at h2
+  exact h2
+
 /-- the module list as the theorems observe it is constant -/
 def J (mk : Option MKey) (c : List Core) (s : Ctx) : Prop := s.mods.map (coreM mk) = c
 
